@@ -50,10 +50,10 @@ var c15Sanctioned = map[string][]string{
 		// end of the inventory
 		"range-end: param0.Inventory.Packages",
 		// a package whose extractor produces no package URL cannot be referenced from SPDX
-		"extractor.Extractor.ToPURL(param0.Inventory.Packages[ι].Extractor,param0.Inventory.Packages[ι]) == nil:*github.com/google/osv-scalibr/purl.PackageURL",
+		"extractor.ToPURL(param0.Inventory.Packages[ι].Extractor,param0.Inventory.Packages[ι]) == nil:*github.com/google/osv-scalibr/purl.PackageURL",
 		// SPDX requires a name and a version; both are the package URL's, and so is the test
-		"builtin.len(extractor.Extractor.ToPURL(param0.Inventory.Packages[ι].Extractor,param0.Inventory.Packages[ι]).Name) == 0",
-		"builtin.len(extractor.Extractor.ToPURL(param0.Inventory.Packages[ι].Extractor,param0.Inventory.Packages[ι]).Version) == 0",
+		"builtin.len(extractor.ToPURL(param0.Inventory.Packages[ι].Extractor,param0.Inventory.Packages[ι]).Name) == 0",
+		"builtin.len(extractor.ToPURL(param0.Inventory.Packages[ι].Extractor,param0.Inventory.Packages[ι]).Version) == 0",
 	},
 	// ToCDX exports every package
 	"converter.ToCDX": {"range-end: param0.Inventory.Packages"},
@@ -819,22 +819,45 @@ func fnSkips(fn *ssa.Function, progress func(ssa.Instruction) bool) []string {
 }
 
 func isAppendOf(elem string) func(ssa.Instruction) bool {
-	return func(in ssa.Instruction) bool {
-		c, ok := in.(*ssa.Call)
-		if !ok || !isCallTo(c, "builtin", "", "append") {
-			return false
-		}
-		st, ok := c.Type().Underlying().(*types.Slice)
-		if !ok {
-			return false
-		}
-		t := st.Elem()
+	named := func(t types.Type) bool {
 		if pt, ok := t.(*types.Pointer); ok {
 			t = pt.Elem()
 		}
 		n := namedOf(t)
 		return n != nil && n.Obj().Name() == elem
 	}
+	return func(in ssa.Instruction) bool {
+		switch x := in.(type) {
+		case *ssa.Call:
+			if !isCallTo(x, "builtin", "", "append") {
+				return false
+			}
+			st, ok := x.Type().Underlying().(*types.Slice)
+			return ok && named(st.Elem())
+		case *ssa.Store:
+			// s[i] = v: filling a pre-sized slice position by position collects just like append
+			ia, ok := x.Addr.(*ssa.IndexAddr)
+			if !ok {
+				return false
+			}
+			st, ok := ia.X.Type().Underlying().(*types.Slice)
+			return ok && named(st.Elem()) && types.Identical(st.Elem(), x.Val.Type())
+		}
+		return false
+	}
+}
+
+// collectedValues: what an instruction matched by isAppendOf adds to the collection.
+func collectedValues(in ssa.Instruction) []ssa.Value {
+	switch x := in.(type) {
+	case *ssa.Call:
+		if len(x.Call.Args) > 1 {
+			return flattenVariadic(x.Call.Args[1:])
+		}
+	case *ssa.Store:
+		return []ssa.Value{x.Val}
+	}
+	return nil
 }
 
 func c15Omissions(p *Prog, r *Report) {
@@ -869,7 +892,7 @@ func c15Omissions(p *Prog, r *Report) {
 			r.Undecided("D4-omissions", "anchor:"+s.name, "-", "not found")
 			continue
 		}
-		key := fnKey(fn)
+		key := tableKey(c15Sanctioned, fn)
 		sk := s.skips(fn)
 		if learn {
 			for _, x := range sk {
